@@ -22,6 +22,7 @@ func init() {
 		Assumptions: []string{"log.Fatal, log.Fatalf and log.Fatalln terminate the process"},
 		Rules: []RuleDef{
 			{"C18/fatal-guards", "six unsafe combinations: no path reaches the normal return while the combination holds", c18FatalGuards},
+			{"C18/raw-compare", "every consumer of the settings the refusals test compares them the same way (exact equality with a constant), so a spelling that is not refused is not treated as the refused value later", c18RawCompare},
 			{"C18/key-substitution", "five keys: at return, len >= 32 was established or a fresh GenerateRandomString(n>=32) was stored", c18KeySubstitution},
 			{"C18/checked-settings", "the settings the refusals test are returned as they were tested: Load does not rewrite them", c18CheckedSettings},
 			{"C18/csprng", "GenerateRandomString / GenerateRandomBytes draw only from crypto/rand and return n symbols", c18CSPRNG},
@@ -405,13 +406,8 @@ func c18Wiring(c *Ctx) {
 	})
 	c.Check(okStore, rule, "main conf", loadCall.Pos(), "the checked configuration is the one used (conf = config.Load(...))", "main does not use the configuration returned by config.Load")
 	// key copies
-	pairs := map[string]string{
-		"SigningKey":        "Security.PAATokenSigningKey",
-		"EncryptionKey":     "Security.PAATokenEncryptionKey",
-		"UserEncryptionKey": "Security.UserTokenEncryptionKey",
-		"UserSigningKey":    "Security.UserTokenSigningKey",
-		"QuerySigningKey":   "Security.QueryTokenSigningKey",
-	}
+	keyWiring(c, rule, "SigningKey", "EncryptionKey", "UserEncryptionKey", "UserSigningKey", "QuerySigningKey")
+	pairs := map[string]string{}
 	seen := map[string]bool{}
 	c.eachMainInstr(func(in ssa.Instruction) {
 		s, ok := in.(*ssa.Store)
@@ -514,5 +510,105 @@ func c18CheckedSettings(c *Ctx) {
 	}
 	if n == 0 {
 		c.OK(rule, "config.Load checked settings", load.Pos(), "no store to HostSelection, Tls, Authentication, TokenAuth, Keytab, QueryTokenSigningKey, SessionStore in Load or its helpers (they are filled by the unmarshalling library only)")
+	}
+}
+
+// securityKeyPairs: the variable of package security each token function reads, and the
+// configuration field that is documented to feed it.
+var securityKeyPairs = map[string]string{
+	"SigningKey":        "Security.PAATokenSigningKey",
+	"EncryptionKey":     "Security.PAATokenEncryptionKey",
+	"UserEncryptionKey": "Security.UserTokenEncryptionKey",
+	"UserSigningKey":    "Security.UserTokenSigningKey",
+	"QuerySigningKey":   "Security.QueryTokenSigningKey",
+}
+
+// keyWiring: main (or a start-up helper of it) stores conf.<field> into security.<name> for each
+// of the named variables, and nothing else.
+func keyWiring(c *Ctx, rule string, names ...string) {
+	mainFn := c.Fn("cmd/rdpgw", "main")
+	want := map[string]string{}
+	for _, n := range names {
+		want[n] = securityKeyPairs[n]
+	}
+	seen := map[string]bool{}
+	c.eachMainInstr(func(in ssa.Instruction) {
+		s, ok := in.(*ssa.Store)
+		if !ok {
+			return
+		}
+		g, ok := s.Addr.(*ssa.Global)
+		if !ok || g.Pkg.Pkg.Path() != secPkgPath {
+			return
+		}
+		w, ok := want[g.Name()]
+		if !ok {
+			return
+		}
+		seen[g.Name()] = true
+		p, okp := confFieldPath(s.Val)
+		c.Check(okp && p == w, rule, "main security."+g.Name(), s.Pos(), "= conf."+w, fmt.Sprintf("security.%s is set from conf.%s, its consumer expects conf.%s", g.Name(), p, w))
+	})
+	for _, n := range sortedKeys(want) {
+		if !seen[n] {
+			c.Bad(rule, "main security."+n, mainFn.Pos(), "security.%s is never set from the configuration", n)
+		}
+	}
+}
+
+// c18RawCompare: the start-up refusals compare Server.Tls, Server.HostSelection and the
+// authentication words by exact equality. A consumer that normalises (EqualFold, TrimSpace, ToLower)
+// treats "Disable" as disabled although the refusal let it through.
+func c18RawCompare(c *Ctx) {
+	rule := "C18/raw-compare"
+	watch := map[string]bool{"Tls": true, "HostSelection": true, "SessionStore": true}
+	n := 0
+	for _, f := range c.allFirstPartyFuncs() {
+		if f.Pkg == nil {
+			continue
+		}
+		pp := f.Pkg.Pkg.Path()
+		if pp != cfgPkgPath && pp != modPath+"/cmd/rdpgw" {
+			continue
+		}
+		f := f
+		eachInstr(f, func(in ssa.Instruction) {
+			u, ok := in.(*ssa.UnOp)
+			if !ok || u.Op != token.MUL {
+				return
+			}
+			fa, ok := u.X.(*ssa.FieldAddr)
+			if !ok {
+				return
+			}
+			_, fld, ok := fieldOfAddr(fa)
+			if !ok || !watch[fld.Name()] || fld.Pkg() == nil || fld.Pkg().Path() != cfgPkgPath {
+				return
+			}
+			for _, r := range *u.Referrers() {
+				switch x := r.(type) {
+				case *ssa.DebugRef, *ssa.Store, *ssa.MakeInterface:
+				case *ssa.BinOp:
+					_, isC1 := constString(x.X)
+					_, isC2 := constString(x.Y)
+					if (x.Op == token.EQL || x.Op == token.NEQ) && (isC1 || isC2) {
+						n++
+						continue
+					}
+					c.Bad(rule, fld.Name()+" use in "+shortFn(f), x.Pos(), "the setting is combined rather than compared with a constant")
+				case *ssa.Call:
+					name := calleeName(x)
+					if strings.HasPrefix(name, "strings.") || strings.HasPrefix(name, "bytes.") {
+						n++
+						c.Bad(rule, fld.Name()+" "+name+" in "+shortFn(f), x.Pos(), "%s is normalised with %s before it is tested, while config.Load's refusal compares the raw text: a spelling such as \"Disable\" passes the refusal and is then treated as the refused value", fld.Name(), name)
+					}
+				}
+			}
+		})
+	}
+	if n == 0 {
+		c.Undecided(rule, "settings uses", token.NoPos, "no comparison of Tls/HostSelection/SessionStore found in config or main")
+	} else {
+		c.OK(rule, "settings compared raw", token.NoPos, "all %d tests of Tls/HostSelection/SessionStore in config and main are exact comparisons with constants", n)
 	}
 }
